@@ -2074,7 +2074,11 @@ class AstEval:
                     for name in await self.get_target_names(target):
                         local_names.add(name)
                         names.add(name)
-            elif cls_name in {"AugAssign", "For", "AsyncFor", "NamedExpr"}:
+            elif cls_name in {"AugAssign", "AnnAssign", "For", "AsyncFor", "NamedExpr"}:
+                #
+                # an annotated assignment (x: T = value, also a bare x: T) makes
+                # its target a local variable, like any other binding
+                #
                 for name in await self.get_target_names(arg.target):
                     local_names.add(name)
                     names.add(name)
